@@ -44,6 +44,8 @@ type World struct {
 	specFnSig  map[string]*SpecFn
 
 	modsets map[*ssa.Function]map[string]bool
+	baseMods map[*ssa.Function]map[string]bool
+	pcalls   map[*ssa.Function]map[int]bool
 	fnSrc   map[*ssa.Parameter]*fnValSrc
 	// invariants every API call preserves; assumed across calls of caller-supplied callbacks
 	CallbackInv     []*Clause
